@@ -1,5 +1,5 @@
 (* C10 — decorated functions run forward, then f, then the inverses in reverse order. *)
-From Connectome Require Import Values Loopback LoopbackFacts.
+From Connectome Require Import Values MiscGen Loopback LoopbackFacts.
 Local Open Scope list_scope.
 
 (* For every chain of invertible, inheriting, forward-only and cache layers: threading the contexts through the
@@ -14,6 +14,13 @@ Print Assumptions C10_loopback.
 Theorem C10_rejects_forward_only : forall x0 ks1 i ks2, loopback x0 (ks1 ++ KFwdOnly i :: ks2) = None.
 Proof. exact fwd_only_rejects. Qed.
 Print Assumptions C10_rejects_forward_only.
+
+(* regenerated: every default-named argument of an @inverse function is a backward input (not only the first one), and a
+   chain's context reverses the current layer before the previous ones *)
+Theorem C10_rules_are_translated :
+  inverse_wrap_rule = "default output -> InverseOutput; every default input -> InverseInput" /\ chain_reverse_order = "current first, then previous".
+Proof. split; reflexivity. Qed.
+Print Assumptions C10_rules_are_translated.
 
 Example C10_example :
   loopback (VStr "x0") [KInv 0; KCache; KInhAll; KInvNoParam 3]
